@@ -494,6 +494,9 @@ func (w *World) exec(op *Op) (done bool) {
 		var it *g.Item
 		prio := op.Prio
 		ok := w.call("SetItem", true, func() error {
+			if op.K == OpSetR && op.N == 1 {
+				return c.SetAny(key, val)
+			}
 			if op.K == OpSetR {
 				return c.Set(key, val)
 			}
@@ -549,7 +552,11 @@ func (w *World) exec(op *Op) (done bool) {
 		var was bool
 		ok := w.call("Delete", true, func() error {
 			var err error
-			was, err = c.Delete(op.Key)
+			if op.N == 1 {
+				was, err = c.DeleteAny(op.Key)
+			} else {
+				was, err = c.Delete(op.Key)
+			}
 			return err
 		})
 		if !ok {
